@@ -104,19 +104,19 @@ namespace ratio
     CORE_EXPORT virtual bool_expr disj(const std::vector<bool_expr> &exprs) noexcept;
     CORE_EXPORT bool_expr exct_one(const std::vector<bool_expr> &exprs) noexcept;
 
-    CORE_EXPORT arith_expr add(const std::vector<arith_expr> &exprs) noexcept;
-    CORE_EXPORT arith_expr sub(const std::vector<arith_expr> &exprs) noexcept;
+    CORE_EXPORT arith_expr add(const std::vector<arith_expr> &exprs);
+    CORE_EXPORT arith_expr sub(const std::vector<arith_expr> &exprs);
     CORE_EXPORT arith_expr mult(const std::vector<arith_expr> &exprs); // throws std::invalid_argument when more than one factor is not a constant..
     CORE_EXPORT arith_expr div(const std::vector<arith_expr> &exprs);  // throws std::invalid_argument when a divisor is not a (non-zero) constant..
     CORE_EXPORT arith_expr minus(arith_expr ex) noexcept;
 
-    CORE_EXPORT bool_expr lt(arith_expr left, arith_expr right) noexcept;
-    CORE_EXPORT bool_expr leq(arith_expr left, arith_expr right) noexcept;
-    CORE_EXPORT bool_expr eq(arith_expr left, arith_expr right) noexcept;
-    CORE_EXPORT bool_expr geq(arith_expr left, arith_expr right) noexcept;
-    CORE_EXPORT bool_expr gt(arith_expr left, arith_expr right) noexcept;
+    CORE_EXPORT bool_expr lt(arith_expr left, arith_expr right);
+    CORE_EXPORT bool_expr leq(arith_expr left, arith_expr right);
+    CORE_EXPORT bool_expr eq(arith_expr left, arith_expr right);
+    CORE_EXPORT bool_expr geq(arith_expr left, arith_expr right);
+    CORE_EXPORT bool_expr gt(arith_expr left, arith_expr right);
 
-    CORE_EXPORT bool_expr eq(expr i0, expr i1) noexcept;
+    CORE_EXPORT bool_expr eq(expr i0, expr i1);
 
     CORE_EXPORT void assert_facts(const std::vector<smt::lit> &facts);
     CORE_EXPORT void assert_facts(const std::vector<bool_expr> &facts);
